@@ -20,6 +20,24 @@ Record case11 := mk11 {
   c_seq : impl_res                               (* partition under a pool of one thread *)
 }.
 
+(* ---------- points of large inputs, given by formulas (the harness evaluates the same ones) ---------- *)
+
+Inductive cspec :=
+| CAff (a b m q : Z)                          (* ((a * i + b) mod m) / q *)
+| CBlock (order : list Z) (interleave : bool). (* b = order[i / 1024], o = i mod 1024: o * nb + b or b * 1024 + o *)
+
+Definition cval (s : cspec) (i : Z) : Z :=
+  match s with
+  | CAff a b m q => (((a * i + b) mod m) / q)%Z
+  | CBlock order il =>
+    let b := nth (Z.to_nat (i / 1024)) order 0%Z in
+    let o := (i mod 1024)%Z in
+    if il then (o * Z.of_nat (length order) + b)%Z else (b * 1024 + o)%Z
+  end.
+
+Definition gen_pts (n : nat) (specs : list cspec) : list (list N) :=
+  map (fun i => map (fun s => f64_to_bits (f64_of_Z (cval s (Z.of_nat i)))) specs) (seq 0 n).
+
 (* ---------- generic helpers ---------- *)
 
 Fixpoint map_scheme {B C} (f : B -> C) (s : scheme B) : scheme C :=
